@@ -10,14 +10,14 @@ from vf.models.wellformed import problems
 from vf.spec import S, build, short
 from vf.zoo import DETECTORS, random_detector
 
-SHARDS = {"quick": 8, "thorough": 16}
+SHARDS = {"quick": 16, "thorough": 16}
 WATCHDOG = {"quick": 1800, "thorough": 10800}
 ZOO_CASES = {"quick": 100, "thorough": 1500}
 DEGENERATE_CASES = {"quick": 120, "thorough": 1500}
 FLOORS = {
-    "quick": {"distinct_nontrivial": 1500, "grid_valid_completed": 1200, "grid_invalid_rejected": 2000,
-              "zoo_completed": 350, "nan_cases": 800},
-    "thorough": {"distinct_nontrivial": 6000, "grid_valid_completed": 6000},
+    "quick": {"distinct_nontrivial": 15000, "grid_valid_completed": 1200, "grid_invalid_rejected": 15000,
+              "zoo_completed": 630, "nan_cases": 10000},
+    "thorough": {"distinct_nontrivial": 6000, "grid_valid_completed": 2500, "degenerate_completed": 10000},
 }
 ANCHORS = [
     "skchange.utils.validation.parameters.check_larger_than",
